@@ -56,15 +56,14 @@ def run(chk, tier, replay):
     E.selfcheck(chk, tier)
     T('selfcheck')
 
-    jobs = [("seq-bin", dict(module="MC_EncRefine", constants_text=E.refine_cfg(1, [0, 1], 15 if thorough else 11, "fill", True), workers=3, timeout=2400)),
-            ("hist", dict(module="MC_EncHist", constants_text=E.hist_cfg("pos", 2 if thorough else 1, 8, "consume", True, ALL_STREAMS), workers=3, timeout=2400))]
-    for fam in E.FAMILIES:
-        jobs.append(("cases-" + fam, dict(module="MC_EncCases", workers=3, timeout=2400,
-                                          constants_text=E.cfg_text({"Families": E.tla_set([fam]), "Thorough": "TRUE" if thorough else "FALSE"}))))
-    for fam in ("hyb", "delta", "str", "dict"):
-        jobs.insert(0, ("alt-" + fam, dict(module="MC_EncAlt", workers=8 if fam == "delta" else 4, timeout=2400,
-                                           constants_text=E.cfg_text({"Families": E.tla_set([fam]), "Thorough": "TRUE" if thorough else "FALSE"}))))
-    res = E.run_many(jobs, parallel=6)
+    jobs = [("seq-bin", dict(module="MC_EncRefine", constants_text=E.refine_cfg(1, [0, 1], 15 if thorough else 11, "fill", True), workers=2, timeout=2400)),
+            ("hist", dict(module="MC_EncHist", constants_text=E.hist_cfg("pos", 2 if thorough else 1, 8, "consume", True, ALL_STREAMS), workers=2, timeout=2400))]
+    th = "TRUE" if thorough else "FALSE"
+    jobs.insert(0, ("alt", dict(module="MC_EncAlt", workers=8, timeout=2400,
+                                constants_text=E.cfg_text({"Families": E.tla_set(["hyb", "delta", "str", "dict"]), "Thorough": th}))))
+    jobs.insert(1, ("cases", dict(module="MC_EncCases", workers=5, timeout=2400,
+                                  constants_text=E.cfg_text({"Families": E.tla_set(E.FAMILIES), "Thorough": th}))))
+    res = E.run_many(jobs, parallel=4)
     T('tlc generation')
     for name, r in res.items():
         common.log('    job %-14s %.1fs %d cases' % (name, r.wall, len(r.cases)))
@@ -74,7 +73,7 @@ def run(chk, tier, replay):
 
     # ------------------------------------------------------------------ (a) carquet encodes, TLC parses
     cases = []
-    for name in ["seq-bin"] + ["cases-" + f for f in E.FAMILIES]:
+    for name in ("seq-bin", "cases"):
         cases += [c for c in res[name].cases if c.get("kind") in E.FAMILIES]
     lines, owner = [], {}
     for i, c in enumerate(cases):
@@ -120,9 +119,7 @@ def run(chk, tier, replay):
         chk.sample({"direction": "a", "event": {k: (v if not isinstance(v, list) or len(v) < 40 else v[:40] + ["..."]) for k, v in e.items()}})
 
     # ------------------------------------------------------------------ (b) TLC encodes, carquet decodes
-    alt = []
-    for fam in ("hyb", "delta", "str", "dict"):
-        alt += [c for c in res["alt-" + fam].cases if "kind" in c]
+    alt = [c for c in res["alt"].cases if "kind" in c]
     bad_oracle = [c for c in alt if not c.get("selfok", False)]
     if bad_oracle:
         raise InfraError("format module fails Parse(Ser(x)) = x on %d generated cases, e.g. %s" % (len(bad_oracle), str(bad_oracle[0])[:400]))
